@@ -58,6 +58,35 @@ type Jet struct {
 	Br     uint32 // signature of the branch decisions (Abs sign, Min/Max selection) taken so far
 	Status int
 	Why    string // why Status != stOK
+	// K: set on a register that sits exactly on a kink between two smooth pieces (Abs at 0, a
+	// Min/Max tie between different functions) whose one-sided derivatives are all known.
+	K *kinkInfo
+}
+
+// kinkInfo: per derivative slot the closed interval spanned by the two one-sided derivatives,
+// widened by the comparison tolerance of either side. Any convention a library may follow at a
+// kink (one of the two pieces, zero for Abs, a convex combination) lies inside; content
+// unrelated to the operands (a stale buffer) does not, up to coincidence.
+type kinkInfo struct {
+	GLo, GHi [maxN]float64
+	HLo, HHi [maxN][maxN]float64
+}
+
+// kinkBetween: slot-wise hull of sp*p and sq*q (p, q smooth jets of the two pieces).
+func (m *Model) kinkBetween(p *Jet, sp float64, q *Jet, sq float64) *kinkInfo {
+	k := &kinkInfo{}
+	hull := func(a, b Q) (float64, float64) {
+		u, v := sp*a.V, sq*b.V
+		eu, ev := tolK*a.E, tolK*b.E
+		return math.Min(u-eu, v-ev), math.Max(u+eu, v+ev)
+	}
+	for i := 0; i < m.N; i++ {
+		k.GLo[i], k.GHi[i] = hull(p.G[i], q.G[i])
+		for l := 0; l < m.N; l++ {
+			k.HLo[i][l], k.HHi[i][l] = hull(p.H[i][l], q.H[i][l])
+		}
+	}
+	return k
 }
 
 func constJet(v float64) Jet { return Jet{Val: Q{v, 0}} }
@@ -443,7 +472,10 @@ func (m *Model) combine2(a, b *Jet, f [6]Q) Jet {
 	c := Jet{Deps: a.Deps | b.Deps, Br: a.Br*31 + b.Br*17}
 	c.Val = f[0]
 	if a.Status == stNonsmooth || b.Status == stNonsmooth {
-		c.Status, c.Why = stNonsmooth, a.Why+b.Why
+		c.Status, c.Why = stNonsmooth, a.Why
+		if a.Status != stNonsmooth {
+			c.Why = b.Why
+		}
 		m.finish(&c)
 		return c
 	}
@@ -497,6 +529,9 @@ func (m *Model) Unary(o *OpDef, a *Jet) Jet {
 			return c
 		}
 		c.Status, c.Why = stNonsmooth, "kink:"+o.Name
+		if a.Status == stOK {
+			c.K = m.kinkBetween(a, 1, a, -1) // |a| is +a on one side of the kink and -a on the other
+		}
 		m.finish(&c)
 		return c
 	}
@@ -603,6 +638,9 @@ func (m *Model) Binary(o *OpDef, a, b *Jet) Jet {
 			} else {
 				// tie between different functions: value defined, derivative not
 				c = Jet{Val: b.Val, Status: stNonsmooth, Why: "tie:" + o.Name}
+				if a.Status == stOK && b.Status == stOK {
+					c.K = m.kinkBetween(a, 1, b, 1) // the result is a on one side of the tie and b on the other
+				}
 			}
 		case abs(x-y) <= m.tieMargin(a.Val, b.Val):
 			return undefined("tie-ambiguous", deps)
@@ -674,6 +712,11 @@ func (m *Model) Binary(o *OpDef, a, b *Jet) Jet {
 	case "Add", "Sub":
 		f[1].E, f[2].E = 0, 0
 		f[3], f[4], f[5] = Q{}, Q{}, Q{}
+		if a.Val.E == 0 && b.Val.E == 0 {
+			// sum of two exactly known numbers: one correctly rounded operation; in particular
+			// x - x is exactly 0 (so that |x - y| at x == y is recognised as sitting on the kink)
+			f[0].E = uL * abs(f[0].V)
+		}
 	case "Mul":
 		f[3], f[5] = Q{}, Q{}
 		f[4].E = 0
@@ -691,6 +734,9 @@ var (
 	opDiv  = &OpDef{Name: "Div", Kind: Binary}
 	opExp  = &OpDef{Name: "Exp", Kind: Unary}
 	opSqrt = &OpDef{Name: "Sqrt", Kind: Unary}
+	opLog  = &OpDef{Name: "Log", Kind: Unary}
+
+	opLogAdd = &OpDef{Name: "LogAdd", Kind: Binary}
 )
 
 func (m *Model) sum(xs []Jet) Jet {
@@ -752,9 +798,65 @@ func (m *Model) ReduceOp(o *OpDef, v, w []Jet, rows int) Jet {
 			num[i] = m.Binary(opMul, &v[i], &den[i])
 		}
 		n, d := m.sum(num), m.sum(den)
-		return fix(m.Binary(opDiv, &n, &d))
+		r := m.Binary(opDiv, &n, &d)
+		if o.Name == "LogSmoothMax" && r.Status == stOK {
+			m.widenLogDomain(&r, v, &al)
+		}
+		return fix(r)
 	}
 	panic("ReduceOp: unknown op " + o.Name)
+}
+
+// widenLogDomain: LogSmoothMax exists to be evaluated on log scale,
+// f = exp(L1 - L2), L1 = log sum x_i e^(alpha x_i), L2 = log sum e^(alpha x_i), each log-sum
+// accumulated pairwise. One accumulation step c = log(e^a + e^b) has the Hessian
+// s(1-s) dg dg^T + s H_a + (1-s) H_b (s = weight of a, dg = grad a - grad b). When one element
+// dominates, these three terms cancel down to O(s^2) in the cross entries, so every faithful
+// log-scale evaluation carries an absolute error eps*(sum of their magnitudes) there which the
+// quotient formula sum x e^(alpha x) / sum e^(alpha x) does not have. The second derivatives of the
+// reference jet (values from the quotient formula) get this running magnitude as additional
+// error bound; value and gradient have no such cancellation and stay as they are.
+func (m *Model) widenLogDomain(r *Jet, v []Jet, al *Jet) {
+	type mag [maxN][maxN]float64
+	var l [2]Jet // running log-sums
+	var s [2]mag // running magnitude sums of their Hessians
+	for i := range v {
+		ax := m.Binary(opMul, al, &v[i])
+		lx := m.Unary(opLog, &v[i])
+		z := [2]Jet{m.Binary(opAdd, &ax, &lx), ax}
+		for q := 0; q < 2; q++ {
+			if z[q].Status != stOK {
+				return
+			}
+			if i == 0 {
+				l[q] = z[q]
+				continue
+			}
+			c := m.Binary(opLogAdd, &l[q], &z[q])
+			if c.Status != stOK {
+				return
+			}
+			w := sigmoid(l[q].Val.V - z[q].Val.V) // weight of the part accumulated so far
+			for j := 0; j < m.N; j++ {
+				for k := 0; k < m.N; k++ {
+					dj, dk := l[q].G[j].V-z[q].G[j].V, l[q].G[k].V-z[q].G[k].V
+					s[q][j][k] = w*s[q][j][k] + w*(1-w)*abs(dj*dk) + w*abs(l[q].H[j][k].V) + (1-w)*abs(z[q].H[j][k].V)
+				}
+			}
+			l[q] = c
+		}
+	}
+	eps := math.Max(epsElem, 8*m.US)
+	f := abs(r.Val.V)
+	for j := 0; j < m.N; j++ {
+		for k := 0; k < m.N; k++ {
+			dj, dk := l[0].G[j].V-l[1].G[j].V, l[0].G[k].V-l[1].G[k].V
+			e := eps * f * (s[0][j][k] + s[1][j][k] + abs(l[0].H[j][k].V) + abs(l[1].H[j][k].V) + abs(dj*dk))
+			if e > r.H[j][k].E {
+				r.H[j][k].E = e
+			}
+		}
+	}
 }
 
 // ---- program evaluation -------------------------------------------------------------------------
